@@ -3,6 +3,7 @@
 // rule R12).  C11: with a salt, the address is a function of only the code checksum, creator and salt.
 //@ fn src/addresses.rs :: instantiate_address
 //@   ret r
+//@   replace "fn instantiate_address(code_id: u64, instance_id: u64) -> CanonicalAddr" => "fn instantiate_address(code_id: u64, instance_id: u64) -> CanonicalAddr"
 //@   drop_body
 //@   ensures [C11.addr.instantiate_address_fn] r == spec_instantiate_address(code_id, instance_id)
 //@ end
